@@ -186,6 +186,11 @@ def send_kinds():
 
 def cases(chk):
     r = chk.rng
+    # the same stanza two or three times under the same id on the same stack (a multi-part answer, a server retransmission): every occurrence
+    # produces its entity — the protocol layers keep no memory of ids
+    for d in SUPPORTED:
+        for f in ("1111", "0000", "1010"):
+            yield "recv", {"d": d, "flags": f, "enc": 0, "repeat": 2 + (len(repr(d)) + int(f, 2)) % 2}
     for enc in (0, 1):
         for d in SUPPORTED:
             fl = FLAGSETS if (d["tag"] in ("message", "notification", "iq") or not chk.quick()) else ["1111", "0000"]
@@ -271,13 +276,22 @@ def run_case(chk, stream, case):
                                 % (type(ent).__name__, case["flags"], n, expect)))
         return fails
     chk.seq = getattr(chk, "seq", 0) + 1
+    first_ups = None
     for rep in range(case.get("repeat", 1)):
         # the same stanza again, with the SAME id (the server re-uses ping ids; ids restart after a reconnect): it is answered every time
         fs = _recv_once(chk, case, chk.seq)
+        ups = list(getattr(chk, "last_ups", []))
+        if rep == 0:
+            first_ups = ups
+        elif len(first_ups) == 1 and ups != first_ups and not any(f.kind == "oracle" for f in fs):
+            # whatever the kind: the first occurrence produced exactly one entity, this one — the same stanza on the same stack — does not
+            fs = list(fs) + [oracle("C06:incoming-lost:same-id-again", "stanza %s (modules %s): the first occurrence produced %s, the same stanza again (same id: the next part of an answer, "
+                         "a retransmission) produced %s" % (desc_line(case["d"]), case["flags"], first_ups, ups or "nothing"))]
         if fs:
             if rep:
                 fs = [f._replace(what="occurrence #%d of the same stanza (same id): %s" % (rep + 1, f.what)) for f in fs]
-            return fs
+            # property oracles first
+            return sorted(fs, key=lambda f: 0 if f.kind == "oracle" else 1) if hasattr(fs[0], "kind") else fs
     return []
 
 
@@ -286,6 +300,7 @@ def _recv_once(chk, case, seq):
     d = case["d"]
     node, ups, downs, evts, raised, sent, got = observe_recv(chk, case, seq)
     impl = "ups:%s;downs:%s;evts:%s;raised:%d" % (",".join(ups), ",".join(downs), ",".join(evts), 1 if raised else 0)
+    chk.last_ups = list(ups)
     model = chk.driver.ask("route recv %d %s %s" % (case["enc"], case["flags"], desc_line(d)))
     chk.hit("recv:" + d["tag"] + (":" + d.get("ntype", "") if d["tag"] == "notification" else ""), "enc=%d" % case["enc"])
     if impl != model:
